@@ -16,7 +16,7 @@ def dispatch (line : String) : String :=
     if op.startsWith "mux." then muxOp fs
     else if op == "acl" then aclOp fs
     else if op == "clean" || op.startsWith "flist." then flistOp fs
-    else if op == "delete" || op == "find" || op == "utf8" then deleteOp fs
+    else if op == "delete" || op == "find" || op == "utf8" || op == "filter" then deleteOp fs
     else if op == "gen" || op == "genrecv" then genOp fs
     else if ["sum1", "md4", "sumsizes", "gensums", "search", "recvdata"].contains op then deltaOp fs
     else "bad-op"
